@@ -95,6 +95,11 @@ func genA(t *rapid.T) CaseA {
 			f.S = genText(t, "s")
 		case "wstr":
 			f.S = genText(t, "s")
+			// one time in six the field carries a dangling odd byte after its last complete
+			// code unit (no stock Demon sends that; the reader must not be confused by it)
+			if rapid.IntRange(0, 5).Draw(t, "odd") == 0 {
+				f.B = []byte{rapid.Byte().Draw(t, "oddbyte")}
+			}
 		}
 		c.Fields = append(c.Fields, f)
 	}
@@ -135,7 +140,7 @@ func encodeA(c CaseA) ([]byte, []int) {
 			p32(uint32(len(f.S)))
 			buf.WriteString(f.S)
 		case "wstr":
-			w := utf16le(f.S)
+			w := append(utf16le(f.S), f.B...)
 			p32(uint32(len(w)))
 			buf.Write(w)
 		}
@@ -246,7 +251,15 @@ func checkA(c CaseA) *core.Violation {
 			}
 		case "wstr":
 			got := p.ParseUTF16String()
-			if got != f.S {
+			if len(f.B) == 1 {
+				// a dangling byte is not a code unit: ignoring it, a replacement character or the
+				// zero-extended byte are all defensible; anything else (in particular text that
+				// depends on what was decoded before) is not what was sent
+				rest, ok := strings.CutPrefix(got, f.S)
+				if !ok || !(rest == "" || rest == "\ufffd" || rest == string(rune(f.B[0]))) {
+					return core.V("reader|ParseUTF16String|wrong-value|dangling-odd-byte", "field %d: %d complete code units + one dangling byte %#x read as %.60q, the complete units spell %.60q (tail %q)", i, len(utf16le(f.S))/2, f.B[0], got, f.S, tailOf(got))
+				}
+			} else if got != f.S {
 				sig := "reader|ParseUTF16String|wrong-value"
 				if hasAstral(f.S) {
 					sig += "|surrogate-pair"
@@ -287,6 +300,9 @@ func classifyA(c CaseA) core.Class {
 			empty = true
 		}
 		cl.Labels = append(cl.Labels, "kind:"+f.Kind)
+		if f.Kind == "wstr" && len(f.B) == 1 {
+			cl.Labels = append(cl.Labels, "wstr-with-dangling-odd-byte")
+		}
 	}
 	cl.Labels = append(cl.Labels, fmt.Sprintf("trailing:%d", r))
 	for _, f := range c.Fields {
@@ -310,7 +326,7 @@ func classifyA(c CaseA) core.Class {
 func TestC03a(t *testing.T) {
 	core.Run(t, core.Spec[CaseA]{
 		Property: "C03", Sub: "a",
-		Rule: "1-8 typed fields (i32,i64,ptr,bool,bytes,str,wstr; boundary and random values; Unicode incl. astral, interior NULs) encoded as Package.c does (big-endian) or little-endian, followed by 0-9 trailing bytes; oracle: every Parse* returns the sent value, Length() is exact, CanIRead true on the whole buffer and false on every proper prefix of the declared fields. Non-trivial: 1-7 trailing bytes, or a surrogate pair, or an empty string; distinct = (endianness, last field kind, trailing count, astral, empty, #fields)",
+		Rule: "1-8 typed fields (i32,i64,ptr,bool,bytes,str,wstr; boundary and random values; Unicode incl. astral, interior NULs; one wide string in six carries a dangling odd byte, which may be ignored, replaced or zero-extended but must not change the text) encoded as Package.c does (big-endian) or little-endian, followed by 0-9 trailing bytes; oracle: every Parse* returns the sent value, Length() is exact, CanIRead true on the whole buffer and false on every proper prefix of the declared fields. Non-trivial: 1-7 trailing bytes, or a surrogate pair, or an empty string; distinct = (endianness, last field kind, trailing count, astral, empty, #fields)",
 		Gen:   genA, Check: checkA, Classify: classifyA,
 		Assumptions: []string{"text readers strip leading/trailing NULs by contract, so generated text has none at its ends"},
 	})
